@@ -137,7 +137,11 @@ BaseName(G, q) == IF G.types[q].k = "REF" /\ G.types[q].tags = <<>> THEN BaseNam
 (*     using module's tag default) otherwise; and the decision to tag       *)
 (*     automatically looks at the members after the copy.                   *)
 
-ArrDevs == <<"DevComponentsOfInPlace", "DevTagOnTaggedChoiceRefExplicit">>
+\* DevRefSizeIgnored: a SIZE constraint written on a type reference,  Fl (SIZE (2..5)),  is dropped when the
+\* reference is the element of a SEQUENCE OF / SET OF or denotes a BIT STRING or a list type (the base class
+\* set_size_range of the codecs is empty; codecs/compiler.py compile_member is the only reader of 'size' on a
+\* referencing descriptor) -- the same text with the definition written in place keeps the constraint
+ArrDevs == <<"DevComponentsOfInPlace", "DevTagOnTaggedChoiceRefExplicit", "DevRefSizeIgnored">>
 
 CutT == [k |-> "CUT", tags |-> <<>>]
 
@@ -184,7 +188,10 @@ Tree(G, T, ctx, S, keep, fuel) ==
       body ==
         CASE T.k = "REF" ->
                IF T.name \in keep THEN [T EXCEPT !.tags = <<>>]
-               ELSE Tree(G, G.types[T.name], CtxOf(G, T.name), S, keep, fuel)
+               ELSE LET inner == Tree(G, G.types[T.name], CtxOf(G, T.name), S, keep, fuel)
+                    \* a SIZE constraint written on the reference,  Id (SIZE (4)),  of an otherwise unconstrained type
+                    IN IF "sz" \in DOMAIN T /\ ~("DevRefSizeIgnored" \in S /\ inner.k \in {"BITS", "SEQOF", "SETOF"})
+                       THEN [inner EXCEPT !.sz = T.sz] ELSE inner
           [] T.k \in {"SEQ", "SET"} ->
                IF fuel = 0 THEN CutT
                ELSE
@@ -222,7 +229,9 @@ Tree(G, T, ctx, S, keep, fuel) ==
                             !.adds = Force([i \in 1..Len(T.adds) |-> sub(nr + i, T.adds[i])])]
           [] T.k \in {"SEQOF", "SETOF"} ->
                IF fuel = 0 THEN CutT
-               ELSE [T EXCEPT !.tags = <<>>, !.e = Tree(G, T.e, ctx, S, keep, fuel - 1)]
+               ELSE LET el == IF "DevRefSizeIgnored" \in S /\ T.e.k = "REF" /\ "sz" \in DOMAIN T.e
+                              THEN [k |-> "REF", tags |-> T.e.tags, name |-> T.e.name] ELSE T.e
+                    IN [T EXCEPT !.tags = <<>>, !.e = Tree(G, el, ctx, S, keep, fuel - 1)]
           [] OTHER -> [T EXCEPT !.tags = <<>>]
   IN [body EXCEPT !.tags = ctags \o @]
 
